@@ -588,14 +588,22 @@ func (c14) Generate(seed uint64, tier string, index int) any {
 		{Path: "zz_chr", Type: "chr", Perm: 0o600, Mtime: 1_500_000_002, Rdev: 1<<8 | 3},
 		{Path: "zz_sock", Type: "sock", Perm: 0o755, Mtime: 1_500_000_003},
 		{Path: "zz_dir/inner", Type: "f", Perm: 0o604, Mtime: 1_500_000_004, Content: g.Content(1500)},
+		{Path: "zz_dir/deep/inner2", Type: "f", Perm: 0o640, Mtime: 1_500_000_005, Content: g.Content(700)},
+		{Path: "zz_dir/deep/er/inner3", Type: "f", Perm: 0o600, Mtime: 1_500_000_006, Content: g.Content(70)},
 		{Path: "zz_file", Type: "f", Perm: 0o751, Mtime: 1_400_000_000, Content: g.Content(3000)},
 		{Path: "zz_trail ", Type: "f", Perm: 0o644, Mtime: 1_400_000_001, Content: g.Content(20)}, // name ends in a blank
 		{Path: "zz_trail", Type: "f", Perm: 0o644, Mtime: 1_400_000_002, Content: g.Content(21)},
+		{Path: "zz_\xc3\xa9t\xc3\xa9\xf0\x9f\x93\x81", Type: "f", Perm: 0o644, Mtime: 1_400_000_003, Content: g.Content(22)}, // multi-byte UTF-8
 	}
 	for _, e := range must {
 		if sc.Src.Find(string(e.Path)) == nil {
 			sc.Src.Entries = append(sc.Src.Entries, e)
 		}
+	}
+	if g.R.Intn(5) == 0 {
+		// the contents of a directory two levels down: every arrangement must
+		// place them directly in the destination
+		sc.Sources = []SrcArg{{Path: []fstree.Name{"zz_dir/deep", "zz_dir/deep/er", "zz_dir"}[g.R.Intn(3)], Slash: true}}
 	}
 	o := model.ParseOpts(opts)
 	var ls []listedSrc
@@ -611,7 +619,7 @@ func (c14) Generate(seed uint64, tier string, index int) any {
 		sc.Opts = append(sc.Opts, "--exclude="+path.Base(string(e.Path)))
 	} else if g.R.Intn(8) == 0 {
 		// a rule must travel over the wire byte for byte
-		sc.Opts = append(sc.Opts, []string{"--exclude=zz_trail ", "--exclude=zz_trail", "--include=zz_trail "}[g.R.Intn(3)])
+		sc.Opts = append(sc.Opts, []string{"--exclude=zz_trail ", "--exclude=zz_trail", "--include=zz_trail ", "--exclude=zz_\xc3\xa9t\xc3\xa9\xf0\x9f\x93\x81", "--include=zz_\xc3\xa9t\xc3\xa9\xf0\x9f\x93\x81"}[g.R.Intn(5)])
 	}
 	sc.Tr = g.TransportFor(12, 2*treeBytes(&sc.Src)+treeBytes(&sc.Dst))
 	out := &C14Scenario{Sync: sc, Arrs: []string{"A1", "A2", "A3p", "A3s", "A4"}}
